@@ -80,14 +80,17 @@ class Gen:
         if k < 0.87 and s.live_nodes():
             return {'v': 'node', 'i': r.choice(s.live_nodes())}
         if k < 0.95 and s.live_buses():
-            return {'v': 'map', 'i': r.choice(s.live_buses())}
-        if k < 0.97:
+            i = r.choice(s.live_buses())
+            s.buses[i]['mapped'] = True
+            return {'v': 'map', 'i': i}
+        if k < 0.99:
             # an accessor used after free: bus.as_map() of a freed bus (possibly one whose map symbol was rendered while it
             # was allocated) must raise BusException -- the command is then never issued
             fb = [i for i, u in enumerate(s.buses) if u['freed'] and not u.get('dead')]
             if fb:
                 self.tags.add('as_map-after-free')
-                return {'v': 'map', 'i': r.choice(fb)}
+                warm = [i for i in fb if s.buses[i].get('mapped')]
+                return {'v': 'map', 'i': r.choice(warm if warm and r.random() < 0.7 else fb)}
         return self.num()
 
     def cvalue(self, depth=0):
@@ -326,6 +329,8 @@ class Gen:
             bn = explicit()
             if bn is not None:
                 op['bufnum'] = bn; self.tags.add('explicit-bufnum')
+            if r.random() < 0.2:
+                op['cache'] = False; self.tags.add('buffer-cache-off')     # every keyword option of the constructor is exercised
             self.emit(op)
             s.bufs.append({'freed': False, 'stale': False})
         elif k == 'b_new_noalloc':
